@@ -620,6 +620,7 @@ pub fn handle<F: Flav>(w: &World<F>, k: K, kind: u32) -> (F::Node, u32) {
 
 /// Executes one operation with handles of the given provenance kinds.
 pub fn exec<F: Flav>(w: &mut World<F>, op: Op, prov: (u32, u32)) -> (Res, Option<Eid>, (u32, u32)) {
+    watchdog::beat();
     let mut used = (0, 0);
     let mut eid = None;
     let r = match op {
@@ -877,6 +878,14 @@ pub mod watchdog {
         let ut: f64 = f.get(11).and_then(|x| x.parse().ok()).unwrap_or(0.0);
         let st: f64 = f.get(12).and_then(|x| x.parse().ok()).unwrap_or(0.0);
         (ut + st) / 100.0
+    }
+
+    /// Cheap heartbeat (one relaxed atomic add): called before every library
+    /// call of the monitors, so that the watchdog measures library calls and
+    /// not the harness' own work on a large case.
+    #[inline]
+    pub fn beat() {
+        TICKS.fetch_add(1, AO::Relaxed);
     }
 
     pub fn tick(desc: impl FnOnce() -> String) {
